@@ -6,7 +6,8 @@
    The tabu memory is modelled as the code has it: a deque(maxlen=cooldown) and a set which can
    drift apart (a tabu move re-chosen by aspiration is discarded from the set while its later copy
    is still in the deque).  cooldown = 0 makes the code raise IndexError (tabu_list[0] of an empty
-   deque) at the first move, max_iter = 0 UnboundLocalError: both are the explicit error None. *)
+   deque) at the first move: the explicit error None.  max_iter = 0 (with `iteration = 0` bound
+   before the `for`) returns the start point with 0 iterations. *)
 From Coq Require Import List ZArith Bool Arith.
 From SV Require Import C19.Common.
 Import ListNotations.
@@ -74,7 +75,7 @@ Definition t_result (m : bool) (s : tst) (it : nat) : result :=
   {| r_id := t_best s; r_obj := to_user m (t_best_obj s); r_evals := t_evals s; r_iters := it |}.
 
 Definition tabu (m : bool) (cooldown max_iter : nat) (mni : Z) (u0 : Z) (evs : list tevent) : option result :=
-  if Nat.eqb max_iter 0 || Nat.eqb cooldown 0 then None else
+  if Nat.eqb cooldown 0 then None else
   match loop (t_step m cooldown mni) max_iter 1 (t_init m u0) evs with
   | None => None
   | Some (s, it) => Some (t_result m s it)
